@@ -403,6 +403,12 @@ func (a *asyncRun) byzStep() {
 				}
 			}
 			ts := d.VerifSnapshot().LastBlockTimestamp + uint64(1+rng.Intn(3))*n.Cfg.Inc
+			switch rng.Intn(6) { // nobody checks a proposal's timestamp but the application
+			case 0:
+				ts = uint64(c.Clk.Now) + uint64(1000+rng.Intn(5000))
+			case 1:
+				ts = uint64(c.Clk.Now) / n.Cfg.Inc * n.Cfg.Inc
+			}
 			q := mkReq(h, pv, ib, ts, 1000+a.nonce, txs)
 			a.byzProps[[2]int{int(h), int(pv)}] = append(l, q)
 			p = q
